@@ -185,3 +185,21 @@ def check(ctx):
     ctx.check(ok_shape, "R11.2", "one plane matrix of shape (context columns, n_dimensions) per table", init_fn.node,
               init_fn, construct="def _LSHNearest._initialize")
     check_lsh_offset(ctx)
+    # ---- R11.6: the buckets hold positions into the stored history, so positions must never move
+    ctx.rule("R11.6", "rows of the stored history keep their positions: written only by fit (replace) and "
+                      "partial_fit (append)")
+    n_w = 0
+    for c in F.configs(np_=["LSHNearest"], lp=["EpsilonGreedy", "LinUCB", "ThompsonSampling"]):
+        for lab in F.entry_labels(c):
+            root = F.trace(c, lab)
+            for ev, anc in walk(root):
+                if ev.kind == "store" and any(t.region == "bandit" and t.field in ("decisions", "rewards", "contexts")
+                                              and t.ocls == "_LSHNearest" for t in ev.a["targets"]):
+                    n_w += 1
+                    inside = [a.a["callee"].name for a in anc if a.kind == "call"]
+                    ctx.check("fit" in inside or "partial_fit" in inside, "R11.6",
+                              "the history that the hash buckets index is written only by fit and partial_fit",
+                              ev.node, ev.fn, "%s rewrites the stored rows during %s: the positions filed in "
+                              "table_to_hash_to_index then denote other observations [%s]" %
+                              (ev.fn.qualname, lab, c.name))
+    ctx.floor("R11.6", "history writes of LSHNearest seen", n_w, 9)
